@@ -13,6 +13,10 @@ RULES = {
     "C23.3": "the lease set pushed to the bucket is current: in NodeController::update_leases nothing is awaited between reading the applied metadata (owned_topics) and "
              "self.bucket.update_leases(..).await. A set computed before an await can be applied after a concurrent refresh has already revoked a lease for a segment whose "
              "sealing was applied in between; the stale set grants it again",
+    "C23.4": "the bucket's lease set becomes exactly the set handed in (ASTPATH over Storage::update_leases): a path may return without touching the set only on the true branch "
+             "of a test that the two sets are EQUAL; every other path must drop the leases that are not expected (retain by membership in the expected set, or a wholesale replacement) "
+             "and add every expected one (a loop over the expected set whose every iteration inserts, or extend). A subset test on the fast path keeps a revoked lease alive: the node "
+             "goes on writing into a segment it has sealed or handed over",
     "C23.2": "every engine write of distributed-walrus goes through Storage::append_by_key (who-may-call on append_for_topic / batch_append_for_topic), append_by_key takes the bucket "
              "guard first, and forward_append refreshes the leases before appending",
 }
@@ -60,6 +64,117 @@ def check_expected_set_fresh(ctx, files, rid="C23.3"):
                     % (bad[0]["line"], A.text(bad[1])[:60]))
     else:
         ctx.ok(rid, "NodeController::update_leases", "the lease set is handed to the bucket without awaiting anything after it was read from the applied metadata", CTRL, ul["line"])
+
+
+def _norm_set(t):
+    return re.sub(r"[\s\*&()]", "", t)
+
+
+def check_lease_set_exact(ctx, files, rid="C23.4"):
+    b = files[BUCKET]
+    try:
+        ul = b.fn("update_leases")
+    except A.AnchorMissingAst as e:
+        ctx.anchor_missing(rid, str(e))
+        return
+    F = "Storage::update_leases"
+    ctx.saw_fn(F, BUCKET, len(list(A.walk(ul["body"]))))
+    exp = None
+    for p_ in ul.get("params") or []:
+        if isinstance(p_, dict) and "HashSet" in (p_.get("ty") or ""):
+            exp = p_["name"]
+    if exp is None:
+        ctx.anchor_missing(rid, "the expected-set parameter of Storage::update_leases")
+        return
+    try:
+        paths = A.block_paths(ul["body"])
+    except A.TooManyPaths:
+        ctx.violate(rid, F, "too-many-paths", BUCKET, ul["line"], "too many paths: fail closed")
+        return
+    # names bound to the lease set's guards
+    guards = set()
+    for n in A.walk(ul["body"]):
+        if isinstance(n, dict) and n.get("k") == "let" and n.get("init") is not None and "active_leases" in A.text(n["init"]):
+            guards.add(re.sub(r"^mut\s+", "", (n.get("pat") or "").strip()))
+    if not guards:
+        ctx.anchor_missing(rid, "a guard of active_leases in Storage::update_leases")
+        return
+    named = {}
+    for n in A.walk(ul["body"]):
+        if isinstance(n, dict) and n.get("k") == "let" and n.get("init") is not None and re.match(r"^\w+$", (n.get("pat") or "").strip()):
+            named[n["pat"].strip()] = n["init"]
+
+    def cond_text(c):
+        t = _norm_set(A.text(c))
+        if t in named:      # a named bool: `let in_sync = *leases == *expected; if in_sync { return; }`
+            t = _norm_set(A.text(named[t]))
+        # the lease set read in place: `*self.active_leases.read().await == *expected`
+        t = re.sub(r"self\.active_leases\.(read|write)\.await", "LEASES", t)
+        for g in guards:
+            t = re.sub(r"\b%s\b" % re.escape(g), "LEASES", t)
+        return t
+    n_fast = n_slow = 0
+    for p in paths:
+        muts = [nd for k, nd in p.events if k == "mcall" and A.text(nd["recv"]).lstrip("*") in guards and nd["method"] in ("retain", "insert", "extend", "clear", "remove", "drain")]
+        assigns = [nd for k, nd in p.events if k == "assign" and _norm_set(A.text(nd.get("left") or nd.get("l") or {})) in guards]
+        if not muts and not assigns:
+            # the set is left as it is: only under `leases == expected`
+            n_fast += 1
+            eq = False
+            for c, br in p.conds:
+                if c.get("k") == "if" and br == "then":
+                    t = cond_text(c["cond"])
+                    if t in ("LEASES==%s" % exp, "%s==LEASES" % exp):
+                        eq = True
+                if c.get("k") == "if" and br == "else":
+                    t = cond_text(c["cond"])
+                    if t in ("LEASES!=%s" % exp, "%s!=LEASES" % exp):
+                        eq = True
+            if eq:
+                ctx.ok(rid, F, "the set is left untouched only when it equals the expected set", BUCKET, ul["line"])
+            else:
+                conds = [A.text(c["cond"])[:70] + ":" + str(br) for c, br in p.conds if c.get("k") == "if"]
+                ctx.violate(rid, F, "lease-set-kept-without-equality", BUCKET, ul["line"],
+                            "update_leases can return without changing the lease set on a path that has not established that the set equals the expected one (path conditions: %s): "
+                            "a lease that is no longer expected - the segment was sealed or handed over - stays active and appends into that segment are still admitted" % (conds or "none"))
+            continue
+        n_slow += 1
+        replaced = any(_norm_set(A.text(nd.get("right") or nd.get("r") or {})).startswith(exp + ".clone") for nd in assigns)
+        drops = replaced
+        for nd in muts:
+            if nd["method"] == "retain":
+                a0 = nd["args"][0] if nd.get("args") else None
+                if isinstance(a0, dict) and a0.get("k") == "closure" and isinstance(a0.get("body"), dict):
+                    bd = a0["body"]
+                    if bd.get("k") == "block" and len(bd.get("stmts", [])) == 1 and isinstance(bd["stmts"][0].get("e"), dict):
+                        bd = bd["stmts"][0]["e"]
+                    ct = re.sub(r"\s", "", A.text(bd))
+                    par = re.escape(str((a0.get("inputs") or ["?"])[0]).lstrip("&"))
+                    # exactly the membership test on the closure's own parameter
+                    if re.match(r"^%s\.contains\(&?\*?%s\)$" % (exp, par), ct):
+                        drops = True
+            if nd["method"] == "clear":
+                drops = True
+        adds = replaced
+        for nd in muts:
+            if nd["method"] == "extend" and nd.get("args") and re.match(r"^%s(\.iter\(\)|\.into_iter\(\))?(\.cloned\(\)|\.map\(\|\w+\|\w+\.clone\(\)\))?$|^%s\.clone\(\)$" % (exp, exp), re.sub(r"\s", "", A.text(nd["args"][0]))):
+                adds = True
+        # a loop over the expected set whose every iteration inserts
+        for k, nd in p.events:
+            if k == "loop-iter" and nd.get("k") == "for" and re.match(r"^&?%s(\.iter\(\)|\.into_iter\(\))?$" % exp, re.sub(r"\s", "", A.text(nd.get("iter") or {}))):
+                body_paths = A.block_paths(nd["body"])
+                if body_paths and all(any(k2 == "mcall" and n2["method"] == "insert" and A.text(n2["recv"]).lstrip("*") in guards for k2, n2 in bp.events) for bp in body_paths):
+                    adds = True
+        if any(k == "loop-skip" and nd.get("k") == "for" and re.match(r"^&?%s(\.iter\(\)|\.into_iter\(\))?$" % exp, re.sub(r"\s", "", A.text(nd.get("iter") or {}))) for k, nd in p.events):
+            continue        # the zero-iteration twin of the insert loop: judged on the one-iteration path
+        if drops and adds:
+            ctx.ok(rid, F, "unexpected leases are dropped and every expected one is added", BUCKET, ul["line"])
+        else:
+            ctx.violate(rid, F, "lease-set-not-made-exact:%s" % ("no-drop" if not drops else "no-add"), BUCKET, ul["line"],
+                        "a path of update_leases changes the lease set without %s: afterwards the set is not the expected one"
+                        % ("removing the leases that are not expected" if not drops else "adding every expected lease"))
+    ctx.floor(rid, "paths of Storage::update_leases that leave the set untouched", n_fast, 1)
+    ctx.floor(rid, "paths of Storage::update_leases that rewrite the set", n_slow, 1)
 
 
 def check_lease_refresh(ctx, files, rid):
@@ -242,6 +357,7 @@ def run(ctx):
         ctx.ok("C23.2", "distributed-walrus", "the only engine write is in Storage::append_by_key", BUCKET, abk["line"])
     check_lease_refresh(ctx, files, "C23.2")
     check_expected_set_fresh(ctx, files, "C23.3")
+    check_lease_set_exact(ctx, files, "C23.4")
     ctx.assume("distributed-walrus cannot be type-checked offline: syntax-tree analysis of bucket.rs / controller; tokio RwLock/Mutex semantics assumed")
     ctx.assume("NOT decided: the gap between applying the rollover in the metadata state machine and the next lease refresh on other schedules")
     return {
